@@ -1252,6 +1252,19 @@ func codecGen(r *Rng, i int) *Sx {
 	v := Pick(r, []int{3, 4, 5, 5})
 	switch x := r.Intn(100); {
 	case x < 30: // (a) valid packets, encoded by specEnc; sometimes a stream starting with CONNECT
+		if r.Chance(1, 30) {
+			// a stream of large PUBLISH packets (bodies beyond any small-buffer fast path): what was decoded from one
+			// packet must still be there after the next ones have been decoded and re-encoded
+			var all []byte
+			all = append(all, specEnc(cgPacket(r, v, 1), nil, r)...)
+			for k := r.Range(2, 3); k > 0; k-- {
+				pk := cgPacket(r, v, 3)
+				big := r.Bytes(Pick(r, []int{4090, 4097, 5000, 9000}))
+				pk.List[8] = B(big)
+				all = append(all, specEnc(pk, nil, r)...)
+			}
+			return L(K("v", I(Pick(r, []int{3, 4, 5}))), K("b", B(all)), K("src", A("stream")))
+		}
 		if r.Chance(1, 6) {
 			var all []byte
 			pk := cgPacket(r, v, 1)
